@@ -208,7 +208,7 @@ def replay_reproduces(path):
         for r in results:
             for v in r.get("violations") or []:
                 if v["property"] == rf["property"] and v["oracle"] == rf["oracle"] and v["key"] == rf["key"]:
-                    ok = True
+                    ok = v
     shutil.rmtree(rundir, ignore_errors=True)
     return ok
 
@@ -405,11 +405,13 @@ EXPECTED_PROBES = {}
 
 
 def replay(path):
+    path = os.path.abspath(path)
     build()
     rf = json.load(open(path))
-    if replay_reproduces(path):
+    v = replay_reproduces(path)
+    if v:
         print("VIOLATION property=%s replay=%s" % (rf["property"], path))
-        print("  oracle=%s key=%s: %s" % (rf["oracle"], rf["key"], rf["message"][:600]))
+        print("  oracle=%s key=%s: %s" % (rf["oracle"], rf["key"], v["message"][:3000]))
         sys.exit(1)
     print("replay %s: violation not reproduced on this tree" % path)
     sys.exit(0)
